@@ -33,7 +33,7 @@ ASSUMPTIONS = [
 MONITORS = ("per-writer manifests computed by the harness vs the shared store after the run; per-event log (monotonic ns, writer, kind, object) "
             "from the audit hook giving contended objects and interleaving signatures; State.get answers vs hashlib")
 REQUIRED_COUNTERS = ["runs", "thread_runs", "process_runs", "contended_objects", "writers_checked", "objects_audited", "state_rows_checked",
-                     "jitter_sleeps", "identical_directory_runs", "second_directories_checked", "runs_with_a_failing_identical_writer", "line_jitter_runs", "line_jitter_yields"]
+                     "jitter_sleeps", "identical_directory_runs", "second_directories_checked", "runs_with_a_failing_identical_writer", "line_jitter_runs", "line_jitter_yields", "verifying_writer_runs"]
 
 
 def make_workspaces(rng, d, n):
@@ -177,6 +177,9 @@ def run_shard(ctx):
                 faulty = rng.choice(pairs)
                 res.count("runs_with_a_failing_identical_writer")
             jobs_of = [rng.choice([1, 2]) for _ in range(n)]
+            vfy = rng.random() < 0.2  # all writers verify what they have added
+            if vfy:
+                res.count("verifying_writer_runs")
             hold = rng.choice([0.02, 0.1, 0.25])
 
             def writer(i):
@@ -197,11 +200,11 @@ def run_shard(ctx):
                             time.sleep(hold)  # the others get on with it meanwhile
 
                         kw["validate_status"] = lose
-                    r = transfer(staging, odbs[i], {obj.hash_info}, shallow=False, jobs=jobs_of[i], **kw)
+                    r = transfer(staging, odbs[i], {obj.hash_info}, shallow=False, jobs=jobs_of[i], verify=vfy, **kw)
                     failed = sorted(h.value for h in r.failed)
                     oid2 = None
                     if staging2 is not None:
-                        r2 = transfer(staging2, odbs[i], {obj2.hash_info}, shallow=False, jobs=jobs_of[i])
+                        r2 = transfer(staging2, odbs[i], {obj2.hash_info}, shallow=False, jobs=jobs_of[i], verify=vfy)
                         failed += sorted(h.value for h in r2.failed)
                         oid2 = obj2.hash_info.value
                     results[i] = {"oid": obj.hash_info.value, "oid2": oid2, "failed": failed, "error": None}
@@ -252,7 +255,7 @@ def run_shard(ctx):
             res.count("contended_objects", len(contended))
             if contended:
                 res.nontrivial("threads", sig)
-            cfg = {"mode": "threads", "writers": n, "shared_store_object": shared_odb, "events": len(events), "contended_objects": len(contended),
+            cfg = {"mode": "threads/verify" if vfy else "threads", "writers": n, "shared_store_object": shared_odb, "events": len(events), "contended_objects": len(contended),
                    "identical_dirs": ident}
             res.sample(cfg)
             state.close()
